@@ -74,6 +74,25 @@ Example C03_copy_sample :
   /\ get_slice 0 (mkS [] [] [[VInt 1]] [] [] [] []) = Done [VInt 1] (mkS [] [] [[VInt 1]] [] [] [] []).
 Proof. vm_compute. repeat split; reflexivity. Qed.
 
+(* strings: the interpreter computes s[a:b], s[:b], s[a:], s[:], s[i] through the inclusive pair as sub_bytes s a (b - a) (Src.v, ESubscript) *)
+Theorem C03_whole_string : forall s : bytes, sub_bytes s 0 (length s) = s.
+Proof. exact sub_full. Qed.
+Print Assumptions C03_whole_string.
+
+Theorem C03_single_byte : forall (s : bytes) i, (i < length s)%nat -> sub_bytes s i 1 = [nth i s 0%N].
+Proof. exact sub_single. Qed.
+Print Assumptions C03_single_byte.
+
+Theorem C03_adjacent_substrings : forall (s : bytes) a b c, (a <= b <= c)%nat ->
+  sub_bytes s a (b - a) ++ sub_bytes s b (c - b) = sub_bytes s a (c - a).
+Proof. exact sub_split. Qed.
+Print Assumptions C03_adjacent_substrings.
+
+Theorem C03_concat_then_cut : forall s t : bytes,
+  sub_bytes (s ++ t) 0 (length s) = s /\ sub_bytes (s ++ t) (length s) (length t) = t.
+Proof. exact sub_concat_left. Qed.
+Print Assumptions C03_concat_then_cut.
+
 (* the interpreter uses exactly slice_store *)
 Example C03_store_sample :
   slice_store [VInt 1] 3 (VInt 9) (VInt 0) = [VInt 1; VInt 0; VInt 0; VInt 9]
